@@ -255,7 +255,7 @@ _add(
          "accumulator must receive the sum of the two cells' rules), all seven STDP-family trainers. One evaluation = one layer step + trainer call + update judged (parts, net change, "
          "applied change) against sums over recorded spike times; non-trivial when at least one spike pair contributes; "
          "distinct = (trainer, cell type, delay mode, sign mode, trace mode, reduction, batch, reward kind, pairs/no pairs).",
-    required=["trainer_steps_checked", "steps_with_pairs", "exhaustive_histories", "per_cell_override_cases", "multicell_steps_checked", "multicell_shared_connection_steps", "fractional_delay_steps_checked", "multicell_frozen_layer_cases", "episode_clears", "multicell_calls_limited_to_named_cells", "multicell_cases_applied_through_trainer_update"],
+    required=["trainer_steps_checked", "steps_with_pairs", "exhaustive_histories", "per_cell_override_cases", "multicell_steps_checked", "multicell_shared_connection_steps", "fractional_delay_steps_checked", "multicell_frozen_layer_cases", "episode_clears", "multicell_calls_limited_to_named_cells", "multicell_cases_applied_through_trainer_update", "steps_with_accumulated_pending_updates"],
     floor={"quick": 60, "thorough": 150},
     exhaustive={"quick": ["all 4^4 joint pre/post histories of one synapse x 4 sign modes x 2 trace modes"],
                 "thorough": ["all 4^5 joint pre/post histories of one synapse x 4 sign modes x 2 trace modes"]},
